@@ -387,8 +387,15 @@ func (c *c02scen) runRandom() error {
 		switch x := r.Rng.Intn(100); {
 		case x < 35:
 			i := r.Rng.Intn(n)
+			// the announcement of a write is published asynchronously: wait for it, so that the
+			// number of pending messages (which the following random choices depend on) is a
+			// function of the seed and not of goroutine timing
+			pubBefore, fan := net.PublishedCount(c.idx(i)), net.Fanout(s.Addr, c.idx(i))
 			if _, err := c.write(i, st); err != nil {
 				return err
+			}
+			for dl := time.Now().Add(5 * time.Second); net.PublishedCount(c.idx(i)) < pubBefore+fan && time.Now().Before(dl); {
+				time.Sleep(time.Millisecond)
 			}
 			c.settle("write")
 			c.trace("write on %d -> %v", i, c.lens())
